@@ -769,6 +769,9 @@ BG = ["default", "black", "dark blue", "light gray", "dark green", "brown", "dar
 MONO = [None, "bold", "underline", "standout", "strikethrough,blink", "italics", "bold,underline"]
 FGH = [None, None, "#ff0000", "#ff0000,italics", "h100", "h17,bold", "light green", "default,underline", "#ffff00", "h200"]
 BGH = [None, None, "#0000ff", "h17", "h200", "dark red", "#ffff00", "default"]
+# a high field that is given but names no colour: the empty string (the other spelling of 'default'), or settings only
+FGH_NO_COLOUR = ["", "", "", "bold", "underline,italics", " ", "standout"]
+BGH_NO_COLOUR = [""]
 DEPTHS = [1, 16, 88, 256, 2 ** 24]
 
 
@@ -798,18 +801,27 @@ def hex_colour(desc):
     return {"k": "n", "r": 0, "g": 0, "b": 0}
 
 
+def names_no_colour(desc):
+    """The field is given (not None) but, read as a comma separated list, holds settings only (or nothing at all)."""
+    return desc is not None and not [p for p in desc.split(",") if p.strip() and p.strip() not in term.FLAG]
+
+
 def entry_record(name_id, fg, bg, mono, fgh, bgh):
     """The palette entry as data for TLC: colour names and numbers parsed into numbers per depth (vf/term.py, as C04),
-    hexadecimal RGB colours as their digits; which slot applies at which depth, the None fallbacks, aliases, undefined names and
-    the terminal colour of a hexadecimal RGB description per depth are decided in AttrFlowOps.tla."""
+    hexadecimal RGB colours as their digits; which slot applies at which depth, the None fallbacks, what a high field that is
+    given without a colour ('' / settings only) means, aliases, undefined names and the terminal colour of a hexadecimal RGB
+    description per depth are decided in AttrFlowOps.tla."""
     f, b, fl = term.spec_to_pen(fg, bg, 16)
     rec = {"name": name_id, "alias": False, "like": 0,
            "mono": term.spec_to_pen(mono or "default", "default", 1)[2],
            "fg": [f, fl], "bg": b, "hasfh": fgh is not None, "hasbh": bgh is not None,
            "fgh": [], "bgh": [], "largeh": _large_h(fgh) or _large_h(bgh),
-           "fghc": hex_colour(fgh), "bghc": hex_colour(bgh)}
+           "fghc": hex_colour(fgh), "bghc": hex_colour(bgh),
+           "fghe": names_no_colour(fgh), "bghe": names_no_colour(bgh)}
     for d in (88, 256, 2 ** 24):
-        if fgh is not None and not (d == 88 and rec["largeh"]):
+        if rec["fghe"]:            # no colour to look up: the settings as written; the colour is TLC's decision (HighFg)
+            rec["fgh"].append([0, sorted(term.FLAG[x] for x in _flags(fgh))])
+        elif fgh is not None and not (d == 88 and rec["largeh"]):
             if rec["fghc"]["k"] == "n":
                 p = term.spec_to_pen(fgh, "default", d)
                 rec["fgh"].append([p[0], p[2]])
@@ -817,7 +829,7 @@ def entry_record(name_id, fg, bg, mono, fgh, bgh):
                 rec["fgh"].append([0, sorted(term.FLAG[x] for x in _flags(fgh))])
         else:
             rec["fgh"].append([0, []])
-        rec["bgh"].append(term.colour_index(bgh, d) if bgh is not None and rec["bghc"]["k"] == "n"
+        rec["bgh"].append(term.colour_index(bgh, d) if bgh is not None and not rec["bghe"] and rec["bghc"]["k"] == "n"
                           and not (d == 88 and rec["largeh"]) else 0)
     return rec
 
@@ -832,8 +844,10 @@ def rand_hex(rng):
 def rand_high(rng, fg):
     """a foreground_high / background_high value: None, one of the fixed forms, or hexadecimal RGB"""
     r = rng.random()
-    if r < 0.45:
+    if r < 0.40:
         return rng.choice(FGH if fg else BGH)
+    if r < 0.55:
+        return rng.choice(FGH_NO_COLOUR if fg else BGH_NO_COLOUR)
     h = rand_hex(rng)
     if fg and rng.random() < 0.3:
         h += rng.choice([",bold", ",italics", ",underline,standout", ", strikethrough"])
@@ -878,6 +892,30 @@ def rand_palette(rng):
             recs.append(alias_record(NAME_ID[N_ALIAS2], NAME_ID[N_ALIAS]))
         if rng.random() < 0.3:   # the target is registered again afterwards: the alias keeps what it copied
             full(tgt)
+    return items, recs
+
+
+def spelling_palette(rng):
+    """Entries with the same kind of basic fields whose high fields are written in every way a field can be written: absent (None),
+    the empty string, settings only, the name 'default', a colour - four (foreground_high, background_high) combinations per
+    palette, one per name (None included), optionally an alias of one of them."""
+    items, recs = [], []
+    ways_f = ["none", "empty", "empty", "settings", "default", "colour"]
+    ways_b = ["none", "empty", "empty", "default", "colour"]
+    order = [1, 2, 3, 0]
+    rng.shuffle(order)
+    for nid in order:
+        fg, bg, mono = rng.choice(FG[1:]), rng.choice(BG[1:]), rng.choice(MONO)
+        wf, wb = rng.choice(ways_f), rng.choice(ways_b)
+        fgh = {"none": None, "empty": "", "settings": rng.choice(FGH_NO_COLOUR[3:]), "default": rng.choice(["default", "default,underline"]),
+               "colour": rng.choice(["h100", "light green", "#ff0000,italics", rand_hex(rng)])}[wf]
+        bgh = {"none": None, "empty": "", "default": "default", "colour": rng.choice(["h17", "dark red", rand_hex(rng)])}[wb]
+        items.append((ALL_NAMES[nid], fg, bg, mono, fgh, bgh))
+        recs.append(entry_record(nid, fg, bg, mono, fgh, bgh))
+    if rng.random() < 0.5:
+        tgt = rng.choice(order)
+        items.append((N_ALIAS, ALL_NAMES[tgt]))
+        recs.append(alias_record(NAME_ID[N_ALIAS], tgt))
     return items, recs
 
 
@@ -1187,7 +1225,7 @@ def shard(task):
     elif kind == "disp":
         for i in range(first, first + count):
             mode, depth, bib, order = DISP_CFGS[i % len(DISP_CFGS)]
-            items, recs = rand_palette(rng)
+            items, recs = spelling_palette(rng) if (i // len(DISP_CFGS)) % 3 == 1 else rand_palette(rng)
             specs = []
             for nid in (NAME_ID[N_SPEC1], NAME_ID[N_SPEC2]):
                 if rng.random() < 0.45:
@@ -1322,6 +1360,16 @@ def coverage(chk, traces):
                 distinct.add(json.dumps([tr["items"], tr["rows_spec"], tr["depth"], tr["bib"], tr["order"]]))
                 if tr["depth"] in (88, 256, 2 ** 24):
                     for rec in tr["pal"]:
+                        # a high field given without a colour next to a basic field that says something: inheriting would show
+                        if rec["name"] in names and not rec["alias"] and not (tr["depth"] == 88 and rec["largeh"]):
+                            if rec["hasfh"] and rec["fghe"] and (rec["fg"][0] != -1 or rec["fg"][1]):
+                                bump(f"frame.foreground_high_without_colour_over_basic_foreground_shown_at_depth_{tr['depth']}")
+                                if not rec["fgh"][0][1]:
+                                    bump(f"frame.empty_foreground_high_over_basic_foreground_shown_at_depth_{tr['depth']}")
+                            if rec["hasbh"] and rec["bghe"] and rec["bg"] != -1:
+                                bump(f"frame.empty_background_high_over_basic_background_shown_at_depth_{tr['depth']}")
+                            if not rec["hasfh"] and not rec["hasbh"] and (rec["fg"][0] != -1 or rec["bg"] != -1):
+                                bump(f"frame.absent_high_fields_inherit_shown_at_depth_{tr['depth']}")
                         for c in (rec["fghc"], rec["bghc"]):
                             if rec["name"] in names and not rec["alias"] and not (tr["depth"] == 88 and rec["largeh"]):
                                 if c["k"] == "x6" and any(v // 16 != v % 16 for v in (c["r"], c["g"], c["b"])):
@@ -1339,6 +1387,9 @@ def coverage(chk, traces):
                  "frame.depth_88", "frame.depth_16777216", "frame.bib_True", "sgr",
                  "frame.rrggbb_with_unequal_digits_shown_at_depth_88", "frame.rrggbb_with_unequal_digits_shown_at_depth_256",
                  "frame.rrggbb_with_unequal_digits_shown_at_depth_16777216", "frame.rgb_shown_at_depth_88", "frame.attrspec_object_shown_at_depth_88", "frame.attrspec_object_shown_at_depth_1",
+                 *[f"frame.{k}_shown_at_depth_{d}" for d in (88, 256, 2 ** 24)
+                   for k in ("empty_foreground_high_over_basic_foreground", "empty_background_high_over_basic_background",
+                             "foreground_high_without_colour_over_basic_foreground", "absent_high_fields_inherit")],
                  "trim.content", "trim.pad_trim_left_right", "trim.overlay_right_of_window", "trim.overlay_left_of_window", "trim.padding_clip",
                  "trim.wide_character_cut_by_left_edge", "trim.cut_by_left_edge_last_of_its_attribute_run",
                  "trim.wide_character_cut_by_right_edge", "hist.hrender", "hist.reread", "hist.apply",
@@ -1416,7 +1467,8 @@ def run(chk):
                        "AttrMap/AttrWrap/fill_attr/fill_attr_apply at three nesting levels x focus; stage 2b: random histories of <= 9 (quick) / 14 "
                        "operations (render whole / inner widget, 12 setters, re-read, apply to a copy, forget) on stacks of <= 3 maps with held "
                        "canvases, plus setter sweeps; stage 3: random palettes (3/4/6-tuples, "
-                       "aliases, alias of alias, re-registration, None entry, '#rrggbb' / '#rgb' with random digits, AttrSpec objects) x 5 depths x "
+                       "aliases, alias of alias, re-registration, None entry, '#rrggbb' / '#rgb' with random digits, high fields absent / '' / settings "
+                       "only / 'default' / a colour, AttrSpec objects) x 5 depths x "
                        "bright-is-bold x registration order x 3 encodings on a real raw_display.Screen; distinct = distinct (markup, configuration) with >= 2 attributes / a map that changes a cell / "
                        "distinct (palette, frame, depth)")
     s1 = next((t for t in traces if t["stage"] == "text" and len(t["ev"]) > 3 and depth_of(t["markup"]) >= 2), traces[0])
